@@ -203,7 +203,7 @@ def build_harness(quiet=True):
 
 
 def run_harness(sub, cases, workdir_, shards=None, hang_timeout=8.0, env=None, extra_args=None,
-                total_timeout=3600, max_hangs=2, mem_limit_mb=None):
+                total_timeout=3600, max_hangs=2, mem_limit_mb=None, _confirm=True):
     """Run `vh <sub> IN OUT` over the cases (list of JSON-able objects, each gets "case": index).
     The harness writes one observation line per case, flushed, in order.  A worker that makes no
     progress for hang_timeout seconds is killed; the in-flight case is recorded as result "hang"
@@ -213,6 +213,7 @@ def run_harness(sub, cases, workdir_, shards=None, hang_timeout=8.0, env=None, e
     n = len(cases)
     if n == 0:
         return []
+    os.makedirs(workdir_, exist_ok=True)
     if shards is None:
         shards = max(1, min(NCPU, n // 50 + 1))
     for i, c in enumerate(cases):
@@ -318,6 +319,26 @@ def run_harness(sub, cases, workdir_, shards=None, hang_timeout=8.0, env=None, e
         raise ToolError(str(errs[0]))
     if any(r is None for r in results):
         raise ToolError("harness lost cases")
+    # a "hang" / "crash" seen while many workers share a busy machine may be starvation or the OOM killer: every such case is
+    # run again ALONE with a generous limit, and only what hangs / crashes again is reported
+    if not _confirm:
+        return results
+    suspects = [i for i, r in enumerate(results) if r["obs"].get("result") in ("hang", "crash")][:6]
+    for i in suspects:
+        again = run_harness(sub, [dict(cases[i])], os.path.join(workdir_, "confirm_%s_%d" % (sub, i)), shards=1, hang_timeout=max(90.0, hang_timeout * 6), env=env,
+                            extra_args=extra_args, total_timeout=600, max_hangs=1, mem_limit_mb=mem_limit_mb, _confirm=False)[0]
+        again["case"] = i
+        if again["obs"].get("result") not in ("hang", "crash"):
+            log("[harness] case %d of `%s` was reported as %s under load and completed when run alone: result %s" % (i, sub, results[i]["obs"].get("result"), again["obs"].get("result")))
+            results[i] = again
+    # cases skipped after repeated hangs of their shard: when those hangs were all spurious, they are run after all
+    skipped = [i for i, r in enumerate(results) if r["obs"].get("result") == "skipped"]
+    if skipped and suspects and all(results[i]["obs"].get("result") not in ("hang", "crash") for i in suspects):
+        rest = run_harness(sub, [dict(cases[i]) for i in skipped], os.path.join(workdir_, "confirm_%s_rest" % sub), shards=min(4, len(skipped)), hang_timeout=max(30.0, hang_timeout * 3),
+                           env=env, extra_args=extra_args, total_timeout=total_timeout, max_hangs=max_hangs, mem_limit_mb=mem_limit_mb, _confirm=False)
+        for i, r in zip(skipped, rest):
+            r["case"] = i
+            results[i] = r
     return results
 
 
